@@ -80,6 +80,34 @@ def cases_from_result(r, wf_by_file, inputs, main='workflow.yaml', sub_inputs=No
         pobj, i = ru['parent']
         prun = objrun.get(pobj)
         subs.setdefault(prun, {}).setdefault(ost.get(pobj), []).append((i, sub_summary(normed[ru['run']]), ru))
+    # plugins of (transitive) item runs that are still executing when a run returns: the run id of every item run's
+    # ancestors, and per run the position of its Return event
+    parent_run = {ru['run']: (objrun.get(ru['parent'][0]) if ru['parent'] is not None else None) for ru in runs}
+    ret_seq = {}
+    for ru in runs:
+        for e in ru['events']:
+            if e['ev'] == 'Return':
+                ret_seq[ru['run']] = e['seq']
+    sub_live = {ru['run']: 0 for ru in runs}
+    for ru in runs:
+        anc, cur = [], parent_run.get(ru['run'])
+        while cur is not None and cur not in anc:
+            anc.append(cur)
+            cur = parent_run.get(cur)
+        if not anc:
+            continue
+        for a in anc:
+            if a not in ret_seq:
+                continue
+            live = set()
+            for e in ru['events']:
+                if e['seq'] > ret_seq[a]:
+                    break
+                if e['ev'] == 'XExecStart':
+                    live.add(e.get('conn'))
+                elif e['ev'] in ('XExecEnd', 'XExecAbort'):
+                    live.discard(e.get('conn'))
+            sub_live[a] += len(live)
     for ru in runs:
         f = file_of.get(ru['run'])
         if f is None:
@@ -108,7 +136,7 @@ def cases_from_result(r, wf_by_file, inputs, main='workflow.yaml', sub_inputs=No
         cases.append({'wf': strip_wf(wf_by_file[f]), 'input': inleaves, 'noreturn': False, 'subs': stab,
                       'expectItems': (expect_items or {}) if ru['parent'] is None else {},
                       'declPar': declared_parallelism(wf_by_file[f]), 'pure': bool(pure) and ru['parent'] is None,
-                      'closure': declared_closure_timeouts(wf_by_file[f]),
+                      'closure': declared_closure_timeouts(wf_by_file[f]), 'subLiveAtReturn': sub_live.get(ru['run'], 0),
                       'events': evn, '_run': ru['run'], '_returned': any(e['ev'] == 'Return' for e in evn), '_file': f})
     return cases
 
